@@ -1162,7 +1162,7 @@ func (sc *scen) monitor(o opDesc, before *ledger, ex expect, ob *observed) (stri
 	}
 	// C. the sum of all balances moves by credits minus debits only
 	delta := new(big.Int).Sub(sumBal(ob.acct, ob.pool), sumBal(before.acct, before.pool))
-	if want := new(big.Int).Sub(credits, debited); delta.Cmp(want) != 0 {
+	if want := new(big.Int).Sub(credits, debited); !ob.blind && delta.Cmp(want) != 0 {
 		if ex.insufficient {
 			return "debit-on-insufficient-funds", describe("drawable funds %v are below the cost %v, the RPC failed, but the balances fell by %v", before.drawable(o.A), ex.cost, new(big.Int).Neg(delta))
 		}
@@ -1171,6 +1171,9 @@ func (sc *scen) monitor(o opDesc, before *ledger, ex expect, ob *observed) (stri
 	// D. the contracts change only with a credit
 	for i := range ob.con {
 		last := h.rec.last[h.contracts[i].ID]
+		if ob.blind {
+			break // nothing was read
+		}
 		if ob.con[i].RevNum != last.RevisionNumber || ob.con[i].Renter.Cmp(bigCur(last.RenterOutput.Value)) != 0 {
 			return "contract-changed-without-credit", describe("contract %d holds revision %d, the last persisted one is %d", i, ob.con[i].RevNum, last.RevisionNumber)
 		}
@@ -2275,8 +2278,10 @@ func runC15(c *hx.Ctx) {
 		defer h.close()
 		fails, counts, err := concurrentSection(h, seed, c.Scale(24000, 100000), c.Scale(3000, 12000), c.Scale(18, 150))
 		if err != nil {
-			res.Fail("harness-error", err.Error(), nil)
-			return false
+			// an honest set-up RPC of the section was refused: reported, and the scenarios
+			// below say what is wrong with it
+			res.Fail("concurrent-section-rpc-refused", err.Error(), map[string]any{"section": "concurrent"})
+			return true
 		}
 		keys := make([]string, 0, len(counts))
 		for k := range counts {
